@@ -330,6 +330,9 @@ def int_floordiv(I, a, b, want_mod=False):
 # ---------------------------------------------------------------- generic binary op
 
 def binop(I, op, a, b):
+    if getattr(a, 'np_value', False) or getattr(b, 'np_value', False):      # numpy arrays / numpy scalars (numpy_model.py)
+        from . import numpy_model
+        return numpy_model.array_binop(I, op, a, b)
     # sequences first
     if op == '+' and (is_seq(a) or is_seq(b) or isinstance(a, (str, PStr)) or isinstance(b, (str, PStr))):
         return seq_concat(I, a, b)
@@ -424,6 +427,9 @@ def binop(I, op, a, b):
 
 
 def unop(I, op, a):
+    if getattr(a, 'np_value', False):       # numpy arrays / numpy scalars (numpy_model.py)
+        from . import numpy_model
+        return numpy_model.unop(I, op, a)
     if op == 'not':
         t = I.truth(a)
         return (not t) if isinstance(t, bool) else mk_bool(z3.Not(t.t))
@@ -477,6 +483,8 @@ def py_eq(I, a, b):
     """a == b as python bool or SBool."""
     if a is b and not isinstance(a, (float, SFloat)):
         return True
+    if getattr(a, 'np_array', False) or getattr(b, 'np_array', False):      # numpy_model.py
+        raise OutOfSubset('== on numpy arrays is elementwise (not modelled)')
     if a is None or b is None:
         return a is None and b is None
     if is_number(a) and is_number(b):
@@ -531,6 +539,10 @@ def py_eq(I, a, b):
     if isinstance(a, BoundMethod) and isinstance(b, BoundMethod):
         return a.func is b.func and a.self_obj is b.self_obj
     if isinstance(a, Opaque) or isinstance(b, Opaque):
+        sa, sb = getattr(a, 'src', None), getattr(b, 'src', None)
+        if sa is not None and sb is not None and a.what == b.what and a.what in ('str(int)', 'str(float)'):
+            # str() is injective on ints and on non-NaN floats of one type
+            return py_eq(I, sa, sb) if a.what == 'str(int)' else mk_bool(to_fp(I, sa) == to_fp(I, sb)) if I.float_mode != 'R' else py_eq(I, sa, sb)
         raise OutOfSubset('== on opaque value %r / %r' % (a, b))
     if isinstance(a, ExcVal) or isinstance(b, ExcVal):
         return a is b
@@ -720,6 +732,8 @@ def seq_repeat(I, a, n):
 def seq_len(I, v):
     if isinstance(v, str):
         return len(v)
+    if type(v).__name__ == 'NDArray':       # numpy arrays (numpy_model.py)
+        return v.shape[0]
     if isinstance(v, PStr):
         return len(v.chars)
     if isinstance(v, SSeq):
